@@ -134,14 +134,16 @@ Proof.
     f_equal. unfold s. destruct (Z.eqb_spec sb 0) as [-> | NS]; cbv iota.
     - destruct (Z.ltb_spec m 0); lia.
     - destruct (Z.ltb_spec (- m) 0) as [L | G]; [lia | ]. assert (M0 : m = 0) by lia.
-      unfold v. rewrite M0. rewrite Z.mod_0_l, Z.mul_0_l, Z.mod_0_l by lia. reflexivity. }
+      assert (V0 : v = 0) by (unfold v; rewrite M0; reflexivity).
+      rewrite V0. reflexivity. }
   pose proof (frepr_hash_of 2 s e _ ltac:(lia) FH) as Hs.
   apply (hash_of_consistent (fnum 2 s e) (fden 2 e) _ n d hb); try assumption.
   - apply fden_pos; lia.
   - (* s/2^e = man/2^ex = n/d *)
     assert (Pex : 0 < fden 2 ex) by (apply fden_pos; lia).
     apply (Z.mul_cancel_r _ _ (fden 2 ex)); [lia | ].
-    transitivity (fnum 2 man ex * fden 2 e * d); [rewrite <- VE; ring | rewrite <- EQ; ring].
+    replace (fnum 2 s e * d * fden 2 ex) with (fnum 2 s e * fden 2 ex * d) by ring. rewrite VE.
+    replace (n * fden 2 e * fden 2 ex) with (n * fden 2 ex * fden 2 e) by ring. rewrite EQ. ring.
 Qed.
 End Float.
 
